@@ -131,7 +131,28 @@ def load_findings():
 
 
 # -------------------------------------------------------------------- Go drivers
+def _harness_dir():
+    """The harness module is built against REPO. For the default /repo the module is used in place;
+    for VERIF_REPO=<scratch worktree> (mutation experiments) a private copy with a rewritten
+    `replace` directive is used so that concurrent runs do not interfere."""
+    if REPO == "/repo":
+        return HARNESS, BIN
+    tag = hashlib.sha1(REPO.encode()).hexdigest()[:8]
+    d = os.path.join(tempfile.gettempdir(), "verif-harness-" + tag)
+    if os.path.exists(d):
+        shutil.rmtree(d)
+    shutil.copytree(HARNESS, d)
+    gm = os.path.join(d, "go.mod")
+    txt = open(gm).read().replace("=> /repo", "=> " + REPO)
+    open(gm, "w").write(txt)
+    b = os.path.join(d, "bin")
+    os.makedirs(b, exist_ok=True)
+    return d, b
+
+
 def build_driver(name, race=False):
+    global HARNESS, BIN
+    HARNESS, BIN = _harness_dir()
     os.makedirs(BIN, exist_ok=True)
     gosum = os.path.join(HARNESS, "go.sum")
     try:
